@@ -53,7 +53,7 @@ class C13(Check):
     budget = (90, 700)
 
     def cases(self, tier, seed):
-        n = 84 if tier == "quick" else 3500
+        n = 252 if tier == "quick" else 7000
         for i in range(n):
             yield dict(seed=seed * 100003 + i, transform=TRANSFORMS[i % len(TRANSFORMS)])
 
